@@ -17,7 +17,10 @@
 (***************************************************************************)
 EXTENDS Integers, Sequences, FiniteSets, TLC, Json
 
-Values == {"65535", "0", "1", "f-1", "f+1", "2^31", "2^32", "2^62", "2^63", "2^64-1", "rem-1", "rem+1", "f-4", "f+4", "256", "2^40"}
+Values == {"65535", "0", "1", "f-1", "f+1", "2^31", "2^32", "2^62", "2^63", "2^64-1", "rem-1", "rem+1", "f-4", "f+4", "256", "2^40",
+           "2^63+f", "2^64-2", "2^28", "2^28+1", "2^32-1", "2^20"}
+\* every value class named by Applicable must be in Values, or it is silently never generated
+\* (found by counting the emitted mutants per value: five classes were missing until round 12)
 
 \* PAR2 numeric fields
 P2Fields == {"main.slice_size", "main.slice_size_1pair", "main.nrecv", "fd.length", "ifsc.npairs", "recv.exp", "recv.datalen"}
@@ -72,6 +75,12 @@ ValidMut(m) ==
   \* volumes need not repeat main / file description / checksum packets (a creator is required in every file)
   \/ m.kind = "struct" /\ m.field \in {"remove.main", "remove.fd", "remove.ifsc"} /\ m.where = "volume"
 
+Extreme == {"2^31", "2^40", "2^62", "2^63", "2^63+f", "2^64-2", "2^64-1"}
+RelatedPairs == { << "par1", "hdr.file_count", "hdr.list_bytes" >>, << "par1", "hdr.list_offset", "hdr.list_bytes" >>,
+                  << "par1", "hdr.data_offset", "hdr.data_bytes" >>, << "par1", "hdr.file_count", "hdr.list_offset" >>,
+                  << "par1", "hdr.file_count", "hdr.data_offset" >>, << "par2", "main.slice_size", "fd.length" >>,
+                  << "par2", "main.nrecv", "fd.length" >> }
+
 VARIABLE m
 Init == m = [kind |-> "root"]
 Single(fmt, f, v, w) == [kind |-> "field", fmt |-> fmt, field |-> f, value |-> v, where |-> w]
@@ -82,8 +91,12 @@ Next ==
      \/ \E f \in P2Struct, w \in Where : m' = Struct("par2", f, w)
      \/ \E f \in P1Fields, v \in Values, w \in Where : Applicable(f, v) /\ m' = Single("par1", f, v, w)
      \/ \E f \in P1Struct, w \in {"volume", "all"} : m' = Struct("par1", f, w)
+     \* two RELATED fields extreme at once (a sum or product of the two wraps around): the full cross product
+     \/ \E pr \in RelatedPairs, v1 \in Extreme \cup {"2^20"}, v2 \in Extreme, w \in {"index", "all"} :
+           m' = [kind |-> "pair", fmt |-> pr[1], field |-> pr[2], value |-> v1, field2 |-> pr[3], value2 |-> v2, where |-> w]
 
 IsMut == m.kind # "root"
+ASSUME \A f \in P2Fields \cup P1Fields : \A v \in {"2^63+f", "2^64-2", "2^28", "2^28+1", "2^32-1"} : Applicable(f, v) => v \in Values
 C19_ClassificationTotal == IsMut => ValidMut(m) \in BOOLEAN
 \* a structurally valid mutant never changes a size, count, offset or hash
 C19_ValidMeansNoFieldChange == (IsMut /\ ValidMut(m)) => m.kind = "struct"
